@@ -28,4 +28,7 @@ CASES = [
     dict(name="scaling-by-sill", file=CS, expect="R07.5", old="            var_scale = np.sqrt(krige_var / self.model.var)\n            nugget = 0", new="            var_scale = np.sqrt(krige_var / self.model.sill)\n            nugget = 0"),
     dict(name="twin-invalidate-via-select", kind="twin", file=KB,
          old="        self.delete_fields()\n\n    def set_drift_functions", new="        self.delete_fields(select=None)\n\n    def set_drift_functions"),
+    dict(name="delitem-aliases-live-name-list", file="field/base.py", expect="R07.7", old="            for k in key:\n                k = self.field_names[k] if isinstance(key, int) else k\n                names.append(k)", new="            names = key"),
+    dict(name="delete-fields-iterates-while-deleting", file="field/base.py", expect="R07.7", old="        del self[self.field_names if select is None else select]", new="        for name in self.field_names if select is None else select:\n            del self[name]"),
+    dict(name="twin-delete-fields-iterates-copy", kind="twin", file="field/base.py", old="        del self[self.field_names if select is None else select]", new="        for name in list(self.field_names if select is None else select):\n            del self[name]"),
 ]
